@@ -197,6 +197,19 @@ Proof.
     rewrite Ha, IH by assumption. reflexivity.
 Qed.
 
+Lemma all2_refl_on (f : Z -> Z -> bool) (p : Z -> bool) a : (forall x, p x = true -> f x x = true) -> forallb p a = true -> all2 f a a = true.
+Proof. intros Hf. induction a as [|x a IH]; simpl; [reflexivity|]. intros H. apply andb_prop in H as [H1 H2]. now rewrite Hf, IH. Qed.
+Lemma gspec_refl_on r p : (forall a, p a = true -> r a a = true) -> forall x, wfb x = true -> allelems p x = true -> gspec r x x = true.
+Proof.
+  intros Hr. induction x as [z|k l|s d| |a IHa|a IHa|a IHa|l IHl] using val_ind'; intros Hw Hp; cbn in *; auto.
+  - rewrite Z.eqb_refl, (all2_refl_on _ _ _ Hr Hp). reflexivity.
+  - rewrite (all2_refl _ _ Z.eqb_refl), (all2_refl_on _ _ _ Hr Hp). reflexivity.
+  - apply andb_prop in Hw as [Hw _]. auto.
+  - apply andb_prop in Hw as [Hw _]. auto.
+  - induction IHl as [|a l Ha Hl IH]; [reflexivity|]. cbn in Hw, Hp. apply andb_prop in Hw as [H1 H2]. apply andb_prop in Hp as [P1 P2].
+    rewrite Ha, IH by assumption. reflexivity.
+Qed.
+
 (* an alternative whose concept differs from the other operand is different from it *)
 Lemma concept_false_l r a : forall y, eitherok a = true -> leafy y = true -> notup y = true ->
   same_concept a y = false -> gspec r a y = false.
@@ -423,10 +436,15 @@ Proof.
   left. apply isclose_arr_spec; auto.
 Qed.
 
+Lemma fclose_sym e a b : fclose e a b = fclose e b a.
+Proof. destruct a, b; simpl; auto. replace (z0 - z) with (- (z - z0)) by ring. now rewrite Z.abs_opp. Qed.
 Lemma close_sym e a b : close e a b = close e b a.
-Proof. unfold close. replace (b - a) with (- (a - b)) by ring. now rewrite Z.abs_opp. Qed.
-Lemma close_refl e a : 0 < e -> close e a a = true.
-Proof. intros H. unfold close. rewrite Z.sub_diag. simpl. lia. Qed.
+Proof. unfold close. apply fclose_sym. Qed.
+(* closeness is reflexive exactly on finite elements: a NaN or an infinity is not close to itself *)
+Lemma close_refl e a : 0 < e -> finitez a = true -> close e a a = true.
+Proof. unfold close, finitez. intros H F. destruct (decode a); try discriminate. simpl. rewrite Z.sub_diag. simpl. lia. Qed.
+Lemma close_nonfinite e a b : finitez a = false \/ finitez b = false -> close e a b = false.
+Proof. unfold close, finitez. intros [F|F]; destruct (decode a), (decode b); try discriminate; reflexivity. Qed.
 
 Lemma pair_dom_okE ee e x y : pair_dom x y = true -> ee e = e -> okE ee e x y.
 Proof.
@@ -534,11 +552,11 @@ Proof.
   destruct (isclose_total nd eps x y Wx Wy D) as [-> | ->], (isclose_d_total nd eps x y Wx Wy D) as [-> | ->];
     repeat split; discriminate.
 Qed.
-Lemma isclose_refl nd eps x : 0 < eps -> wfb x = true -> pair_dom x x = true ->
+Lemma isclose_refl nd eps x : 0 < eps -> wfb x = true -> pair_dom x x = true -> allelems finitez x = true ->
   isclose nd eps x x = Ret true \/ isclose nd eps x x = Reject.
 Proof.
-  intros He Wx D. destruct (isclose_total nd eps x x Wx Wx D) as [H|H]; auto.
-  left. rewrite H. f_equal. apply gspec_refl; auto. intros a. now apply close_refl.
+  intros He Wx D F. destruct (isclose_total nd eps x x Wx Wx D) as [H|H]; auto.
+  left. rewrite H. f_equal. apply (gspec_refl_on (close eps) finitez); auto. intros a. now apply close_refl.
 Qed.
 Lemma isclose_sym nd eps x y b : wfb x = true -> wfb y = true -> pair_dom x y = true ->
   isclose nd eps x y = Ret b -> isclose nd eps y x = Ret b \/ isclose nd eps y x = Reject.
